@@ -403,31 +403,32 @@ var verifProfiles = []verifProfile{
 // otherwise every combination within the per-tier ranges. Returns the
 // configuration and the machine to run it on.
 func verifConfig() (*cfgapi.Config, int) {
+	if n := verifParam("profiles", 0); n > 0 {
+		return verifConfigFor(verifProfiles[verifParam("firstProfile", 0)+verifChoice("profile", n)])
+	}
+	cfg, a := verifBaseConfig()
+	machine := verifParam("machine", 0)
+	a.MinCpus = verifChoice("a.minCpus", verifParam("minCpusN", 3))
+	a.MaxCpus = verifChoice("a.maxCpus", verifParam("maxCpusN", 3))
+	a.MinBalloons = verifChoice("a.minBalloons", verifParam("minBalloonsN", 2))
+	a.MaxBalloons = verifChoice("a.maxBalloons", verifParam("maxBalloonsN", 3))
+	a.ShareIdleCpusInSame = verifShareLevels[verifChoice("a.share", verifParam("shareLevels", 2))]
+	a.PreferNewBalloons = verifChoice("a.preferNew", verifParam("preferNewN", 1)) == 1
+	a.PreferSpreadingPods = verifChoice("a.spreadPods", verifParam("spreadPodsN", 1)) == 1
+	verifFinishConfig(cfg, a, verifParam("available", 0) != 0)
+	return cfg, machine
+}
+
+func verifBaseConfig() (*cfgapi.Config, *cfgapi.BalloonDef) {
 	cfg := &cfgapi.Config{
 		IdleCpuClass:      "idle",
 		ReservedResources: cfgapi.Constraints{cfgapi.CPU: "cpuset:0"},
 	}
-	machine := verifParam("machine", 0)
 	a := &cfgapi.BalloonDef{Name: "a", CpuClass: "class-a", Namespaces: []string{"ns-a"}, AllocatorPriority: cfgapi.PriorityNormal}
-	available := verifParam("available", 0) != 0
-	if n := verifParam("profiles", 0); n > 0 {
-		pr := verifProfiles[verifParam("firstProfile", 0)+verifChoice("profile", n)]
-		machine, available = pr.machine, pr.available
-		a.MinCpus, a.MaxCpus, a.MinBalloons, a.MaxBalloons = pr.minCpus, pr.maxCpus, pr.minBalloons, pr.maxBalloons
-		a.ShareIdleCpusInSame, a.PreferNewBalloons, a.PreferSpreadingPods = pr.share, pr.preferNew, pr.spreadPods
-		if pr.hideHT {
-			hide := true
-			a.HideHyperthreads = &hide
-		}
-	} else {
-		a.MinCpus = verifChoice("a.minCpus", verifParam("minCpusN", 3))
-		a.MaxCpus = verifChoice("a.maxCpus", verifParam("maxCpusN", 3))
-		a.MinBalloons = verifChoice("a.minBalloons", verifParam("minBalloonsN", 2))
-		a.MaxBalloons = verifChoice("a.maxBalloons", verifParam("maxBalloonsN", 3))
-		a.ShareIdleCpusInSame = verifShareLevels[verifChoice("a.share", verifParam("shareLevels", 2))]
-		a.PreferNewBalloons = verifChoice("a.preferNew", verifParam("preferNewN", 1)) == 1
-		a.PreferSpreadingPods = verifChoice("a.spreadPods", verifParam("spreadPodsN", 1)) == 1
-	}
+	return cfg, a
+}
+
+func verifFinishConfig(cfg *cfgapi.Config, a *cfgapi.BalloonDef, available bool) {
 	if available {
 		cfg.AvailableResources = cfgapi.Constraints{cfgapi.CPU: "cpuset:0-6"}
 	}
@@ -437,7 +438,19 @@ func verifConfig() (*cfgapi.Config, int) {
 			ShareIdleCpusInSame: verifShareLevels[verifParam("b.share", 1)], AllocatorPriority: cfgapi.PriorityNormal}
 		cfg.BalloonDefs = append(cfg.BalloonDefs, b)
 	}
-	return cfg, machine
+}
+
+// verifConfigFor builds the configuration of one profile of the table.
+func verifConfigFor(pr verifProfile) (*cfgapi.Config, int) {
+	cfg, a := verifBaseConfig()
+	a.MinCpus, a.MaxCpus, a.MinBalloons, a.MaxBalloons = pr.minCpus, pr.maxCpus, pr.minBalloons, pr.maxBalloons
+	a.ShareIdleCpusInSame, a.PreferNewBalloons, a.PreferSpreadingPods = pr.share, pr.preferNew, pr.spreadPods
+	if pr.hideHT {
+		hide := true
+		a.HideHyperthreads = &hide
+	}
+	verifFinishConfig(cfg, a, pr.available)
+	return cfg, pr.machine
 }
 
 // container kinds: how the balloon type of a new container is selected
